@@ -167,12 +167,21 @@ def main():
     ap.add_argument("--seed", type=int, default=1)
     ap.add_argument("--jobs", type=int, default=14)
     ap.add_argument("--out", default="/tmp/mutgen.jsonl")
+    ap.add_argument("--retest", default="")
+    ap.add_argument("--status", default="GAP,undecided-exit2")
     a = ap.parse_args()
     mods = a.modules.split(",") if a.modules else ["architecture", "bk_encoding", "bk_wav", "builtins", "compiler", "containers", "context", "deferred", "devices", "formats", "insns",
                                                      "metacommand_impl", "metacommands", "operators", "parser", "radix50", "reports", "types", "_cli"]
     allm = enumerate_mutants(mods)
     random.Random(a.seed).shuffle(allm)
     pick = allm[:a.limit]
+    if a.retest:
+        want = set()
+        for l in open(a.retest):
+            r = json.loads(l)
+            if r.get("status") in a.status.split(","):
+                want.add((r["module"], r["line"], r["kind"], r["old"], r["new"]))
+        pick = [m for m in allm if (m["module"], m["line"], m["kind"], m["old"], m["new"]) in want]
     print(f"{len(allm)} candidate edits in {mods}; running {len(pick)}", flush=True)
     stats = {}
     with open(a.out, "a") as f, concurrent.futures.ThreadPoolExecutor(a.jobs) as ex:
